@@ -71,7 +71,10 @@ def wasserstein(dgm1, dgm2, matching=False):
         T = np.array([[0, 0]])
         N = 1
     # Compute CSM between S and dgm2, including points on diagonal
-    DUL = metrics.pairwise.pairwise_distances(S, T)
+    # Euclidean distances by direct differences: the expanded form
+    # |x|^2 - 2<x,y> + |y|^2 used by pairwise_distances cancels
+    # catastrophically for diagrams far from the origin
+    DUL = np.sqrt(np.sum((S[:, None, :] - T[None, :, :]) ** 2, axis=2))
 
     # Put diagonal elements into the matrix
     # Rotate the diagrams to make it easy to find the straight line
